@@ -839,3 +839,65 @@ V('c14-twin-insert-first', 'C14', 'R14.1', DICTMBX,
                 self._mod_sequences.expunge([uid])
                 self._updated.set()
         return dest_uid''', expect='silent')
+
+# ---------------------------------------------------------------- C16
+V('c16-revert-predicate', 'C16', 'R16.1', DICTMBX,
+  '''            if selected.mod_sequence == self._mod_sequences.highest:
+                await either_event.wait()''',
+  '''            await either_event.wait()''')
+V('c16-predicate-before-arming', 'C16', 'R16.1', DICTMBX,
+  '''            either_event = wait_on.or_event(self._updated)
+            if selected.mod_sequence == self._mod_sequences.highest:
+                await either_event.wait()''',
+  '''            if selected.mod_sequence == self._mod_sequences.highest:
+                either_event = wait_on.or_event(self._updated)
+                await either_event.wait()''')
+V('c16-sleep-before-wait', 'C16', 'R16.1', DICTMBX,
+  '''            if selected.mod_sequence == self._mod_sequences.highest:
+                await either_event.wait()''',
+  '''            if selected.mod_sequence == self._mod_sequences.highest:
+                await asyncio.sleep(0)
+                await either_event.wait()''')
+V('c16-update-no-notify', 'C16', 'R16.2', DICTMBX,
+  '''        if not msg.expunged:
+            self._mod_sequences.update([uid])
+            self._updated.set()''', '''        if not msg.expunged:
+            self._mod_sequences.update([uid])''')
+V('c16-done-set-not-finally', 'C16', 'R16.3', IMAP,
+  '''        try:
+            ok = await done_task
+        except Exception as exc:
+            done_exc = exc
+        finally:
+            done.set()''', '''        try:
+            ok = await done_task
+            done.set()
+        except Exception as exc:
+            done_exc = exc''')
+V('c16-handle-updates-no-event', 'C16', 'R16.3', STATE,
+  '''        selected = await self.session.check_mailbox(
+            self.selected, wait_on=done)''',
+  '''        selected = await self.session.check_mailbox(
+            self.selected)''')
+V('c16-not-done-ok', 'C16', 'R16.3', IMAP,
+  '''        elif not ok:
+            return ResponseBad(cmd.tag, b'Expected "DONE".')
+        else:
+            return response''', '''        else:
+            return response''')
+V('c16-maildir-infinite-wait', 'C16', 'R16.4', MAILDIRMBX,
+  'await wait_on.wait(timeout=1.0)', 'await wait_on.wait(timeout=None)')
+# twins
+V('c16-twin-neq-form', 'C16', 'R16.1', DICTMBX,
+  '''            if selected.mod_sequence == self._mod_sequences.highest:
+                await either_event.wait()''',
+  '''            fresh = selected.mod_sequence != self._mod_sequences.highest
+            if not fresh:
+                await either_event.wait()''', expect='silent')
+V('c16-twin-named-timeout', 'C16', 'R16.4', MAILDIRMBX,
+  'await wait_on.wait(timeout=1.0)', 'await wait_on.wait(timeout=_POLL)',
+  expect='silent',
+  edits=[(MAILDIRMBX, 'await wait_on.wait(timeout=1.0)',
+          'await wait_on.wait(timeout=_POLL)'),
+         (MAILDIRMBX, "__all__ = ['Maildir', 'Message', 'MailboxData', 'MailboxSet']",
+          "__all__ = ['Maildir', 'Message', 'MailboxData', 'MailboxSet']\n\n_POLL = 1.0")])
